@@ -478,7 +478,7 @@ def c18(tier, seed):
              "validated against the same definitions in the C03/C04 traces.",
         units=shards("vbyteio", "vbyteio", 1 if q else 4, seed,
                      dict(dense=12 if q else 16, maxlen=2 if q else 3, sample=3000 if q else 20000), module="Trace_Pure")
-              + code_units("alone", tier, seed + 4, 4, 8)
+              + code_units("alone", "quick", seed + 4, 4, 8)      # (both tiers: the depth on VByte values is in vbyteio)
               # the bit-stream VByte codes at the very end of strict streams, every split point, every reader
               + cfg_shards("crossing-vbyte", "crossing", 14, seed + 2, dict(vbyte=1)),
     )
